@@ -1,15 +1,67 @@
-"""Worker entry point: python -m pvf.shard <CHECK> <spec.json> <out.json>."""
+"""Worker entry point: python -m pvf.shard <CHECK> <spec.json> <out.json> [depth]."""
 import importlib
 import json
+import os
+import subprocess
 import sys
+import tempfile
+
+
+def split(spec):
+    """Two halves of a C++ schema-file spec, or None."""
+    for key in ('seqs', 'seeds'):
+        if isinstance(spec.get(key), list) and len(spec[key]) > 1:
+            n = len(spec[key]) // 2
+            return [dict(spec, **{key: spec[key][:n]}), dict(spec, **{key: spec[key][n:]})]
+    return None
+
+
+def run(check, mod, spec, depth=0):
+    """One generated type that does not build must not hide the others of its schema file: when the file's
+    prerequisite (prophyc / C++ compile) fails, the file is halved and both halves are run again - each in a fresh
+    worker process, generated Python modules of the same name must not meet - down to 5 levels. What still fails at
+    the leaves stays a prerequisite failure (the run ends inconclusive unless something that did build shows a
+    violation)."""
+    part = mod.run_shard(spec)
+    failed = [q for q in part.get('prereq', []) if isinstance(q, dict) and q.get('stage') in ('compile', 'prophyc')]
+    if not (failed and spec.get('cpp') and depth < 5):
+        return part
+    halves = split(spec)
+    if not halves:
+        return part
+    from . import harness
+    parts = []
+    tmp = tempfile.mkdtemp(prefix='pvf_half_')
+    try:
+        for i, h in enumerate(halves):
+            sp, out = os.path.join(tmp, 'spec%d.json' % i), os.path.join(tmp, 'out%d.json' % i)
+            with open(sp, 'w') as f:
+                json.dump(h, f)
+            p = subprocess.run([sys.executable, '-m', 'pvf.shard', check, sp, out, str(depth + 1)],
+                               stdout=subprocess.PIPE, stderr=subprocess.PIPE)
+            if p.returncode != 0 or not os.path.exists(out):
+                bad = harness.new_partial()
+                bad['inconclusive'] = 'worker for one half of a schema file died: %s' % p.stderr.decode('utf-8', 'replace')[-300:]
+                parts.append(bad)
+                continue
+            with open(out) as f:
+                parts.append(json.load(f))
+    finally:
+        import shutil
+        shutil.rmtree(tmp, ignore_errors=True)
+    merged = harness.merge(parts)
+    merged['counters']['schema_files_halved_after_build_failure'] = \
+        merged['counters'].get('schema_files_halved_after_build_failure', 0) + 1
+    return merged
 
 
 def main():
     check, spec_path, out_path = sys.argv[1:4]
+    depth = int(sys.argv[4]) if len(sys.argv) > 4 else 0
     with open(spec_path) as f:
         spec = json.load(f)
     mod = importlib.import_module('pvf.checks.' + check.lower())
-    part = mod.run_shard(spec)
+    part = run(check, mod, spec, depth)
     with open(out_path, 'w') as f:
         json.dump(part, f, default=repr)
 
